@@ -147,7 +147,7 @@ inline std::vector<OpVal> op_menu(bool thorough, bool with_clear) {
   std::vector<OpVal> m;
   auto add = [&](uint8_t op, std::initializer_list<const char*> vals) { for (auto v : vals) m.push_back({op, v}); };
   if (!thorough) {
-    add(SET_PROTOCOL, {"https", "file", "b", "ws:", "1x"});
+    add(SET_PROTOCOL, {"https", "HTTPS", "file", "b", "ws:", "1x"});
     add(SET_USERNAME, {"", "u", "a:@b"});
     add(SET_PASSWORD, {"", "p"});
     add(SET_HOST, {"example.org", "h:99", "1.2.3.4", "[::2]", "", "a b", "x/y", "0x10", EACUTE ".x"});
@@ -158,7 +158,7 @@ inline std::vector<OpVal> op_menu(bool thorough, bool with_clear) {
     add(SET_HASH, {"", "#", "h h"});
     add(SET_HREF, {"http://new/", "a:b", "bad"});
   } else {
-    add(SET_PROTOCOL, {"https", "http:", "file", "b", "ws:", "wss", "ftp", "1x", "", "a:b"});
+    add(SET_PROTOCOL, {"https", "http:", "file", "b", "ws:", "wss", "ftp", "1x", "", "a:b", "HTTPS", "Ws:", "fTp", "FILE", "B"});
     add(SET_USERNAME, {"", "u", "a:@b", EACUTE, " /"});
     add(SET_PASSWORD, {"", "p", ":@/", EACUTE, "%41"});
     add(SET_HOST, {"example.org", "h:99", "h:80", "h:", "1.2.3.4", "1.2.3.4:5", "[::2]", "[::2]:3", "", "a b", "x/y", "x\\y", "x?y",
